@@ -338,6 +338,26 @@ def prev_chain(ctx, F):
                 continue
             ok, why = True, "the loop variable is re-assigned from xref_and_trailer(..).trailer[/Prev] (line %d) on every cycle" % g.ln
             break
+    # ... and the chain is left early only for a reason the format gives: no /Prev entry, an offset outside the file, or an offset
+    # that was visited before (a loop).  A test of the offset against anything else (the previous offset, a running minimum) cuts
+    # legitimate chains: /Prev may point forward (a linearized file's first-page section names the main section behind it)
+    if xt:
+        odd = []
+        for x in sorted(blocks):
+            t = rd.term(x)
+            if t["k"] != "switch" or all(s_ in blocks for s_ in rd.succ[x]):
+                continue
+            with rd.alpha():
+                cnd = rd.oname(t["d"], 3).replace("&", "").replace("*", "")
+            if re.match(r"^(discr|contains|insert|Not\(insert|Not\(contains|is_some|is_none|is_ok|is_err)\(", cnd):
+                continue
+            if re.match(r"^(Lt|Le|Gt|Ge|Eq|Ne)\((\$\d+( as \w+)?,(0|-1)|(0|-1),\$\d+( as \w+)?)\)$", cnd):
+                continue
+            if re.match(r"^(Lt|Le|Gt|Ge)\(.*\blen\(.*\)\)$|^(Lt|Le|Gt|Ge)\(len\(.*\),.*\)$", cnd):
+                continue
+            odd.append((cnd, rd.blocks[x]["t"].get("ln", 0)))
+        ctx.ob("R-ORDER", "prev-chain-left-only-at-its-end", not odd, "the /Prev loop is left only when /Prev is absent, outside the file, or was visited before", rd.where(),
+               what="Reader::read leaves the /Prev loop on the test %s: a chain is cut although it neither ended nor looped (a /Prev entry may point forward, as in a linearized file), and the objects of the older sections are missing after loading" % [c_ for c_, _ in odd])
     ctx.ob("R-ORDER", "prev-chain-followed-to-its-end", ok, why, rd.where(),
            what="Reader::read does not follow the /Prev chain to its end (%s): objects that only the third-newest or an older revision defines are missing after loading" % why)
 
